@@ -83,6 +83,9 @@ def body(ctx, case):
     if k > 10 and C ** T > 4000:
         k = 10
         case = ((fam, M), k) + tuple(case[2:])
+    if T > 30 and k > 4:
+        k = 4
+        case = ((fam, M), k) + tuple(case[2:])
     dec, plain, lm, init_h, seq, tol = build(ctx, case)
     desc = lambda: render_case(case)
     ctx.event("lm:" + lm_type)
@@ -194,7 +197,7 @@ def strat(lm_type):
 
         @st.composite
         def case(draw):
-            fam, M = draw(logprob_matrix(max_T=7, max_C=5))
+            fam, M = draw(logprob_matrix(max_T=7, max_C=5, long_lines=(lm_type == "hash")))
             C = M.shape[1]
             start = draw(st.none() | st.lists(st.integers(0, C - 2), min_size=0, max_size=3).map(tuple))
             return ((fam, M), draw(st.sampled_from([1, 2, 3, 5, 10, 10000] if lm_type == "hash" else [1, 2, 3, 5, 10])), draw(st.sampled_from(["default", "all"])),
